@@ -97,9 +97,10 @@ end selection
     (`uniform_real_distribution<double>(0, 1/N)` can return exactly 0, with probability 2⁻⁵³ per
     draw; the correspondence run asserts `0 < u₁` on every draw it observes.) -/
 theorem sel_u1_zero_counterexample :
-    (0 : ℚ) ∈ ({0, 1} : Set ℚ) ∧ ([0, 1] : List ℚ).sum = 1 ∧ (0 : ℚ) < 1 / 2 ∧
+    (∀ x ∈ ([0, 1] : List ℚ), 0 ≤ x) ∧ ([0, 1] : List ℚ).sum = 1 ∧
+    (0 : ℚ) < 1 / (([0, 1] : List ℚ).length : ℚ) ∧ ([0, 1] : List ℚ)[0] = 0 ∧
     0 ∈ resampleIdx ([0, 1] : List ℚ) 0 := by
-  refine ⟨by simp, by norm_num, by norm_num, ?_⟩
+  refine ⟨by simp, by norm_num, by norm_num, rfl, ?_⟩
   rw [resampleIdx_eq]
   simp only [List.length_cons, List.length_nil, List.mem_map, List.mem_range]
   refine ⟨0, by norm_num, ?_⟩
@@ -282,6 +283,10 @@ example : |(((resampleIdx ([1/2, 0, 1/4, 1/4] : List ℚ) (1/8)).count 0 : ℚ))
 
 example : 1 ∉ resampleIdx ([1/2, 0, 1/4, 1/4] : List ℚ) (1/8) :=
   sel_zero_weight _ _ (by simp) (by norm_num) (by norm_num) (by norm_num) 1 (by simp) (by simp)
+
+/-- the contracts of the prior variant are satisfiable -/
+example : SortPerm (fun v => List.range v.length) ∧ InitKeepsShape (fun (s : PSet ℕ ℝ) => s) :=
+  ⟨fun _ => List.Perm.refl _, ⟨fun _ => rfl, fun _ => rfl, fun _ => rfl, fun _ => rfl, fun _ => rfl, fun _ => rfl⟩⟩
 
 example : (1 : ℚ) ≤ neff ([1/2, 0, 1/4, 1/4] : List ℚ) ∧ neff ([1/2, 0, 1/4, 1/4] : List ℚ) ≤ 4 := by
   obtain ⟨_, _, h1, h2⟩ := neff_bounds ([1/2, 0, 1/4, 1/4] : List ℚ) (by simp) (by norm_num)
